@@ -496,10 +496,12 @@ structure PDef.WF (d : PDef V) : Prop where
   super_len : d.superArgs.length ≤ d.fmts.length
   /-- ... and their formats occupy one slot each (no "bits" among them) -/
   super_single : ∀ f ∈ d.fmts.take d.superArgs.length, f.slots = 1
+  /-- the user `__init__` has no keyword-only parameters (for those see `compiled_init_eq_kwonly`) -/
+  no_kwonly : d.kwOnly = []
 
 theorem PDef.WF.of_no_super (d : PDef V) (h1 : d.names.Nodup) (h2 : d.names.length = totalSlots d.fmts)
-    (h3 : d.superArgs = []) : d.WF :=
-  ⟨h1, h2, by simp [h3], by simp [h3], by simp [h3]⟩
+    (h3 : d.superArgs = []) (h4 : d.kwOnly = []) : d.WF :=
+  ⟨h1, h2, by simp [h3], by simp [h3], by simp [h3], h4⟩
 
 /-- defaults: the spliced text denotes the same value, and no non-default parameter follows a default one
     (Python rejects such an `__init__` already in the interpreted class) -/
@@ -642,7 +644,7 @@ theorem init_core (d : PDef V) (args : List V) (kw : KW V) (hwf : d.WF) (hkw : (
               · exact absurd (hiff.mpr ⟨hc', h⟩) hL
             simp only [hc', Bool.false_eq_true, if_false, hne, Bool.not_false, if_true, Except.toOption]
   | some varkw =>
-    simp only [pyBind]
+    simp only [hwf.no_kwonly, List.isEmpty_nil, Bool.not_true, Bool.false_and, Bool.false_eq_true, if_false, pyBind]
     cases hb : bindParams (alookup d.defaults) kw d.names args with
     | error e => rfl
     | ok vals =>
@@ -923,7 +925,7 @@ theorem SDef.toPDef_wf (s : SDef) (dv : String → V) (hp hu : String → V → 
     (s.toPDef dv hp hu).WF ∧ (s.toPDef dv hp hu).DefaultsOK some := by
   simp only [SDef.wf, Bool.and_eq_true, decide_eq_true_eq, beq_iff_eq] at h
   obtain ⟨⟨h1, h2⟩, h3⟩ := h
-  refine ⟨PDef.WF.of_no_super _ h1 h2 rfl, ⟨fun _ _ _ => rfl, ?_⟩⟩
+  refine ⟨PDef.WF.of_no_super _ h1 h2 rfl rfl, ⟨fun _ _ _ => rfl, ?_⟩⟩
   simp only [SDef.toPDef]
   rw [defaultsOrdered_pat] at h3 ⊢
   rw [← h3]
